@@ -379,3 +379,11 @@ def run(ctx):
                             "(shared with C06.R8): a refused or misread SCT silently leaves the receiver on its own clock", "E5 bit provenance + affine forms")
     from . import c06
     c06.ext_time_rule(ctx, r5)
+
+    # ---- R6 waiting objects are attached through the instance whose expiry was just evaluated -----------------------------
+    r6 = ctx.rule("C19.R6", "when an FDT instance completes, waiting objects are offered that very instance - the one push_fdt_obj has just checked "
+                            "for expiry and stored - not another stored instance whose expiry was not re-evaluated: push_fdt_obj stores at the end of "
+                            "fdt_current that attach_latest_fdt_to_objects takes from (shared with C16.R5)", "PAIR")
+    from . import c16
+    c16.latest_instance_rule(ctx, r6)
+    r6.floor(1, "store / take ends")
